@@ -94,7 +94,7 @@ def _static_case(draw):
         st.lists(seg, min_size=1, max_size=7),
         st.sampled_from(['', '', '', '/', '?x=1', '#f', '/.', '/..']),
     ).map(lambda t: t[0] + '/'.join(t[1]) + t[2])
-    aimed = st.tuples(st.just('aim'), st.integers(0, 40), st.integers(0, 6),
+    aimed = st.tuples(st.just('aim'), st.integers(0, 40), st.integers(0, 9),
                       st.sampled_from(['', '', '/', '?x=1'])).map(list)
     # the site changes while the service runs: a public file is replaced by
     # a link that leads outside; every earlier request is then repeated
@@ -194,6 +194,15 @@ def _aim(p, fe, site, secrets):
     elif style == 3:
         # address the directory holding the secret (index.html lookup)
         rel = os.path.dirname(rel) or '.'
+    elif style == 4:
+        # through a linked directory inside the root that leads outside
+        other = os.path.join(os.path.dirname(os.path.dirname(target)), 'other')
+        link = os.path.join(root, 'dl_out')
+        if os.path.islink(link) and os.path.dirname(target) == os.path.realpath(
+                link):
+            rel = ['dl_out/', 'd/../dl_out/', './dl_out/./'][i % 3] + (
+                os.path.basename(target))
+        del other
     return '/' + rel + suffix
 
 
